@@ -225,6 +225,11 @@ func report(c *vf.Ctx, cs *Case, out *outcome, rank int64) {
 		return
 	}
 	c.Eval(1)
+	if out.status == "discarded" {
+		// an earlier call of the history failed: judged where it is the last call
+		c.Count("history_discarded:earlier_call_failed", 1)
+		return
+	}
 	if out.status == "budget" {
 		c.Count("excluded_over_tick_budget(C20)", 1)
 		c.Outcome(cs.Routine + "|" + out.class + "|over-budget")
@@ -274,8 +279,14 @@ func report(c *vf.Ctx, cs *Case, out *outcome, rank int64) {
 	}
 	seen := map[string]bool{}
 	for _, f := range out.fails {
-		o, e := minimise(cs, f.what)
-		key := fmt.Sprintf("%s|%s|elem=%s|%s|%s", cs.Routine, optName(o), e, out.class, f.what)
+		var o, e string
+		if len(cs.Hist) > 0 {
+			o, e = minimiseHist(cs, out.class, f.what)
+		} else {
+			o, e = minimise(cs, f.what)
+			o = optName(o)
+		}
+		key := fmt.Sprintf("%s|%s|elem=%s|%s|%s", cs.Routine, o, e, out.class, f.what)
 		if seen[key] {
 			continue
 		}
@@ -325,9 +336,57 @@ func minimise(cs *Case, what string) (string, string) {
 	return opts, elem
 }
 
+// runner carries the state shared by all cases of a shard: the number of confirmed
+// over-budget inputs per routine|class.
+type runner struct {
+	c         *vf.Ctx
+	confirmed map[string]int
+}
+
+// exec runs one case under the two-stage tick budget and reports it. over (per matrix):
+// routines that already exceeded the budget on this matrix.
+func (r *runner) exec(cs *Case, rank int64, over map[string]bool, sample bool) {
+	c := r.c
+	okey := fmt.Sprintf("%s/%v", cs.Routine, wantsSym(cs.Opts))
+	if over[okey] {
+		// this routine already exceeded the tick budget on this matrix with another
+		// option set: the matrix is excluded here for the routine (C20 reports it)
+		c.Count("excluded_over_tick_budget(C20):not-rerun-with-other-options", 1)
+		return
+	}
+	c.Guard(cs.Routine+"|"+cs.optLabel(), rank, cs)
+	t0 := time.Now()
+	nn := max(cs.R, cs.C)
+	out := runCase(cs, budgetStage1(nn))
+	if out.status == "budget" {
+		ck := cs.Routine + "|" + out.class
+		if r.confirmed[ck] < 2 {
+			out = runCase(cs, budgetFor(nn))
+			if out.status == "budget" {
+				r.confirmed[ck]++
+			} else {
+				c.Count("slow_but_within_full_budget", 1)
+			}
+		} else {
+			c.Count("excluded_over_stage1_budget_presumed_spin(after 2 confirmed per routine|class)", 1)
+			c.Cap("full-budget confirmation skipped for inputs over the stage-1 budget after 2 confirmed per routine|class (only happens when C20 has a violation)")
+		}
+	}
+	if debug && (out.status == "budget" || time.Since(t0) > 50*time.Millisecond) {
+		fmt.Fprintf(os.Stderr, "SLOW %v %s ticks=%d %+v\n", time.Since(t0), out.status, out.ticks, *cs)
+	}
+	if out.status == "budget" && len(cs.Hist) == 0 {
+		over[okey] = true
+	}
+	report(c, cs, &out, rank)
+	if sample {
+		c.Sample(cs)
+	}
+}
+
 func run(c *vf.Ctx) {
 	var idx int64
-	confirmed := map[string]int{}
+	rn := &runner{c: c, confirmed: map[string]int{}}
 	for _, l := range lattices(c.Thorough()) {
 		if f := os.Getenv("C05_LATTICE"); f != "" && f != l.name {
 			continue
@@ -370,47 +429,14 @@ func run(c *vf.Ctx) {
 				for oi, o := range p.opts {
 					for ei, e := range elems {
 						cs := &Case{Routine: p.routine, Opts: o, Elem: e, R: l.r, C: l.c, Base: base, Graded: l.graded, Exp2: e2, Family: l.family}
-						okey := fmt.Sprintf("%s/%v", p.routine, cs.has("Sym"))
-						if over[okey] {
-							// this routine already exceeded the tick budget on this matrix with another
-							// option set: the matrix is excluded here for the routine (C20 reports it)
-							c.Count("excluded_over_tick_budget(C20):not-rerun-with-other-options", 1)
-							continue
-						}
-						c.Guard(p.routine+"|"+optName(o), rank, cs)
-						t0 := time.Now()
-						nn := max(l.r, l.c)
-						out := runCase(cs, budgetStage1(nn))
-						if out.status == "budget" {
-							ck := p.routine + "|" + out.class
-							if confirmed[ck] < 2 {
-								out = runCase(cs, budgetFor(nn))
-								if out.status == "budget" {
-									confirmed[ck]++
-								} else {
-									c.Count("slow_but_within_full_budget", 1)
-								}
-							} else {
-								c.Count("excluded_over_stage1_budget_presumed_spin(after 2 confirmed per routine|class)", 1)
-								c.Cap("full-budget confirmation skipped for inputs over the stage-1 budget after 2 confirmed per routine|class (only happens when C20 has a violation)")
-							}
-						}
-						if debug && (out.status == "budget" || time.Since(t0) > 50*time.Millisecond) {
-							fmt.Fprintf(os.Stderr, "SLOW %v %s ticks=%d %+v\n", time.Since(t0), out.status, out.ticks, *cs)
-						}
-						if out.status == "budget" {
-							over[okey] = true
-						}
-						report(c, cs, &out, rank+int64(oi)+int64(ei)*100)
-						if idx%4099 == 0 && oi == 1 && ei == 0 {
-							c.Sample(cs)
-						}
+						rn.exec(cs, rank+int64(oi)+int64(ei)*100, over, idx%4099 == 0 && oi == 1 && ei == 0)
 					}
 				}
 			}
 		}
 		c.Count("matrices:"+l.name, done)
 	}
+	runHistories(rn, &idx)
 }
 
 func main() {
